@@ -228,6 +228,9 @@ func (c06) Exec(seed int64, i int, tier string) Record {
 	if i%10 == 4 {
 		return c06OverlapCase(CaseRng(seed, "C06", i))
 	}
+	if i%50 == 17 {
+		return c06BigCase(CaseRng(seed, "C06", i)) // b13_helpers.go
+	}
 	r := CaseRng(seed, "C06", i)
 	coldViol := ""
 	if r.Chance(30) && c06MaxLen < 1<<20 {
